@@ -416,11 +416,11 @@ def wl_space(tier, seed):
 
 PLANS = {
     "C12": dict(attr=["C12.", "C05.", "C06.", "C09.fits", "C15.bytes", "C01.result", "C01.outcome"], mc=lambda t: [_mc("MCHash.tla", "MCHash.cfg", workers=2)] + MC_STORE_Q, workloads=wl_golden, assumptions=COMMON_ASSUME),
-    "C13": dict(attr=["C13."], mc=lambda t: mc_db(t, d8=True), workloads=wl_wrongtype, assumptions=COMMON_ASSUME),
+    "C13": dict(attr=["C13."], mc=lambda t: mc_db(t, d8=True), proofs=["AbyRegProofs.tla"], workloads=wl_wrongtype, assumptions=COMMON_ASSUME),
     "C14": dict(attr=["C14.", "C01.result", "C02.content", "C01.outcome"], mc=lambda t: [_mc("MCBulk.tla", "MCBulk.cfg", workers=2)], workloads=wl_bulk, assumptions=COMMON_ASSUME),
     "C10": dict(attr=["C10.", "C14.bulk_get", "C14.bulk_delete", "C01.result", "C04.items", "C05.content", "C05.nodup", "C02.content", "C01.outcome"], mc=lambda t: [_mc("MCCodec.tla", "MCCodec.cfg", workers=2)], workloads=wl_conv, assumptions=COMMON_ASSUME),
     "C07": dict(attr=["C07.", "C01.", "C02.content", "C04."], mc=lambda t: mc_buf(t) + MC_LAYOUT("quick") + [_mc("MCScan.tla", "MCScan_all8.cfg"), _mc("MCScan.tla", "MCScan_n32.cfg")], workloads=wl_params, assumptions=COMMON_ASSUME),
-    "C11": dict(attr=["C11.", "C01.result", "C01.outcome", "C04.", "C02.content"], mc=lambda t: mc_db(t), workloads=wl_multi, assumptions=COMMON_ASSUME),
+    "C11": dict(attr=["C11.", "C01.result", "C01.outcome", "C04.", "C02.content"], mc=lambda t: mc_db(t), proofs=["AbyRegProofs.tla"], workloads=wl_multi, assumptions=COMMON_ASSUME),
     "C15": dict(attr=["C15.", "C02.content"], mc=lambda t: MC_STORE_Q + [_mc("MCScan.tla", "MCScan_all8.cfg"), _mc("MCScan.tla", "MCScan_n32.cfg")], workloads=wl_readonly, assumptions=COMMON_ASSUME),
     "C18": dict(attr=["C18."], mc=lambda t: MC_STORE_Q, workloads=wl_twice, assumptions=COMMON_ASSUME),
     "C02": dict(attr=["C02.", "C01.result", "C01.outcome", "C05.content"], mc=lambda t: mc_buf(t) + mc_db(t), workloads=wl_reopen, assumptions=COMMON_ASSUME),
